@@ -287,6 +287,8 @@ def run(tier, seed):
         if n < 3: J.append(('graph', ([], n, None)))
         elif tier == 'quick' and n == 4:          # quick: 4-node graphs over {input, AND2, fork, DFF}; the full kind set runs in the thorough tier
             for pre in itertools.product(range(len(K4)), repeat=3): J.append(('graph', (list(pre), n, K4)))
+        else:                                     # 3 nodes (both tiers) and 4 nodes (thorough) over all kinds, split by the kinds of the first two nodes
+            for pre in itertools.product(range(len(KINDS)), repeat=2): J.append(('graph', (list(pre), n, None)))
     for nl in netlist.g2_shapes() + netlist.g3_random(seed, 20 if tier == 'quick' else 1500) + netlist.g1_primitives()[::5]:
         for style in ('bench', 'verilog', 'lean', 'vbf'): J.append(('corpus', ('nl', nl.to_json(), style)))
     for r in netlist.G4: J.append(('corpus', r))
